@@ -42,6 +42,22 @@ def scripts(rnd, quick):
         sc = sc[:6000]
     for i in range(0, len(sc), 300):
         yield sc[i:i + 300]
+    # sessions: several requests back to back on one stream and one protocol instance, in arbitrary interleavings
+    for _ in range(60 if quick else 600):
+        tr, mem16 = rnd.randint(0, 1), rnd.randint(0, 1)
+        units = []
+        for _ in range(rnd.randint(2, 8)):
+            write = rnd.randint(0, 1)
+            ws16 = rnd.choice([mem16, mem16, mem16, 1 - mem16])
+            ws = 2 if ws16 else 1
+            n = rnd.randint(0, 6)
+            pl = [rnd.choice([192, 219, 220, 221, rnd.randint(0, 255)]) for _ in range(n * ws)] if write else []
+            o = request(tr, write, ws16, rnd.randint(0, 65535), rnd.getrandbits(32), n, pl)
+            if rnd.random() < 0.15:
+                o[rnd.randrange(2, len(o))] ^= 1 << rnd.randint(0, 7)          # a corrupted frame in between
+            units.append((o, dict(verdict=rnd.choice([0, 0, 0, 7, 8, 9, 10, 11]), vaddr=rnd.getrandbits(32),
+                                  data=[rnd.randint(0, 255) for _ in range(n * (2 if mem16 else 1))])))
+        yield session(rnd, tr, mem16, 192, units)
 
 
 def run(tier):
